@@ -149,6 +149,92 @@ func runC12(c *Ctx) {
 			}
 		}
 	})
+	c12ManyArgs(c)
+}
+
+// c12ManyArgs: the diagonal of the weakening space for variadic functions - 7, 8 and 9
+// variadic arguments, ALL replaced at once by the same kind of unknown (bare, not-null,
+// refined; for collections also with large length bounds such as 256 and 1024), so that
+// whatever a function accumulates across its arguments (products or sums of length bounds,
+// unified types, collected marks) is pushed past small-count behaviour.
+func c12ManyArgs(c *Ctx) {
+	for _, fn := range stdFns {
+		fn := fn
+		if fn.F.VarParam() == nil {
+			continue
+		}
+		c.Unit(func(u *U) {
+			np := len(fn.F.Params())
+			name := fn.Name
+			vd := fn.dict(np, c.Thorough)
+			maxD := 4
+			if c.Thorough {
+				maxD = 10
+			}
+			for di := 0; di < len(vd) && di < maxD; di++ {
+				x := vd[di]
+				ws := []cty.Value{}
+				for _, w := range typedWeakenings(x, 1, c.Thorough) {
+					if w.N == 1 && !w.V.IsKnown() { // root-level replacements only
+						ws = append(ws, w.V)
+					}
+				}
+				if ty := x.Type(); ty.IsCollectionType() && x.IsKnown() && !x.IsNull() {
+					for _, b := range []int{256, 1024} {
+						b := b
+						if v, ok := safeRefine(func() cty.Value {
+							return cty.UnknownVal(ty).Refine().NotNull().CollectionLengthUpperBound(b).NewValue()
+						}); ok {
+							ws = append(ws, v)
+						}
+						if v, ok := safeRefine(func() cty.Value {
+							return cty.UnknownVal(ty).Refine().CollectionLengthLowerBound(x.LengthInt()).CollectionLengthUpperBound(b).NewValue()
+						}); ok {
+							ws = append(ws, v)
+						}
+					}
+				}
+				for _, n := range []int{7, 8, 9} {
+					base := make([]cty.Value, 0, np+n)
+					for i := 0; i < np; i++ {
+						base = append(base, fn.dict(i, c.Thorough)[0])
+					}
+					for k := 0; k < n; k++ {
+						base = append(base, x)
+					}
+					u.Eval(1)
+					o0 := callStd(fn.F, base)
+					if !o0.OK() {
+						u.Class("concrete-rejected")
+						continue
+					}
+					u.Class("concrete-ok")
+					for _, w := range ws {
+						args := append([]cty.Value(nil), base[:np]...)
+						for k := 0; k < n; k++ {
+							args = append(args, w)
+						}
+						u.Eval(1)
+						u.DistinctN(1)
+						oW := callStd(fn.F, args)
+						key := fmt.Sprintf("%s(%d variadic arguments, each %s)", name, n, goStr(w))
+						shape := fmt.Sprintf("%d x %s", n, shapeOf(w))
+						switch {
+						case oW.Panic != "":
+							u.Violation(name+".weakened-panics", shape, fmt.Sprintf("%s(%s) succeeded but %s panicked: %s", name, argsStr(base), key, firstLineOf(oW.Panic)))
+						case oW.Err != nil:
+							u.Violation(name+".weakened-fails", shape, fmt.Sprintf("%s(%s) succeeded with %s but %s failed: %s", name, argsStr(base), goStr(o0.V), key, firstLineOf(oW.Err.Error())))
+						default:
+							if ok, why := admits(oW.V, o0.V); !ok {
+								u.Violation(name+".excludes-concrete", shape+" => "+shapeOf(oW.V), fmt.Sprintf("%s(%s) = %s, but %s = %s excludes it: %s", name, argsStr(base), goStr(o0.V), key, goStr(oW.V), why))
+							}
+							u.Class("many-arguments-compared")
+						}
+					}
+				}
+			}
+		})
+	}
 }
 
 func firstN(ws []Weakened, n int) []Weakened {
